@@ -302,20 +302,26 @@ func c02Body(t *testing.T, s *sim.Scn, o *sim.Outcome) {
 		}
 		o.States = append(o.States, fmt.Sprintf("%s hf=%d df=%d", f.AbstractState(), len(f.HeaderFIFO), len(f.DataFIFO)))
 	}
-	// final phase: everything becomes available through at least one channel and is delivered
-	for bi, b := range blocks {
-		if !fw.planted[fmt.Sprintf("%d/0", bi)] && (bi%2 == 0) {
-			fw.plant(bi, 0, 1)
+	// final phase: everything becomes available through at least one channel and is delivered.
+	// cfg final: 0 = remaining parts through both channels, 1 = DA only (no P2P at all), 2 = P2P only
+	final := s.Cfg["final"] % 3
+	if final != 2 {
+		for bi, b := range blocks {
+			if !fw.planted[fmt.Sprintf("%d/0", bi)] && (final == 1 || bi%2 == 0) {
+				fw.plant(bi, 0, 1)
+			}
+			if !b.Empty && !fw.planted[fmt.Sprintf("%d/1", bi)] && (final == 1 || bi%3 == 0) {
+				fw.plant(bi, 1, 0)
+			}
 		}
-		if !b.Empty && !fw.planted[fmt.Sprintf("%d/1", bi)] && (bi%3 == 0) {
-			fw.plant(bi, 1, 0)
-		}
+		w.DA.SetCur(fw.maxDA)
+		f.Retrieve()
 	}
-	w.DA.SetCur(fw.maxDA)
-	f.Retrieve()
-	f.HStore.SetHeight(top)
-	f.DStore.SetHeight(top)
-	f.PollP2P()
+	if final != 1 {
+		f.HStore.SetHeight(top)
+		f.DStore.SetHeight(top)
+		f.PollP2P()
+	}
 	for round := 0; round < 3; round++ {
 		for len(f.HeaderFIFO) > 0 || len(f.DataFIFO) > 0 {
 			fifo := int64(0)
@@ -330,8 +336,12 @@ func c02Body(t *testing.T, s *sim.Scn, o *sim.Outcome) {
 			break
 		}
 		// a real node keeps polling: re-signal
-		f.Retrieve()
-		f.PollP2P()
+		if final != 2 {
+			f.Retrieve()
+		}
+		if final != 1 {
+			f.PollP2P()
+		}
 	}
 	if h := f.Height(); h != top {
 		// classify: which block is it stuck at
@@ -363,8 +373,47 @@ func min64u(a, b uint64) uint64 {
 	return b
 }
 
+// c02GenNatural is the ordinary operation of a DA-only full node: k consecutive blocks per DA height, in
+// order; after each DA height a scan and the delivery of what it found (in FIFO or seeded order).
+func c02GenNatural(r *rand.Rand) *sim.Scn {
+	s := &sim.Scn{Cfg: map[string]int64{"final": 1}}
+	n := 3 + r.IntN(10)
+	pSame := 20 + r.IntN(50)
+	for i := 0; i < n; i++ {
+		v := int64(1 + r.IntN(3))
+		if r.IntN(100) < pSame {
+			v = 9 - int64(r.IntN(2))
+		} else if r.IntN(4) == 0 {
+			v = 0
+		}
+		s.Ops = append(s.Ops, sim.Op{K: "spec", A: v})
+	}
+	k := 1 + r.IntN(4)
+	total := n + 1 // plus the first (genesis) block
+	for b := 0; b < total; b += k {
+		for j := b; j < b+k && j < total; j++ {
+			s.Ops = append(s.Ops, sim.Op{K: "plant", A: int64(j), B: 0, C: 0}, sim.Op{K: "plant", A: int64(j), B: 1, C: 0})
+		}
+		s.Ops = append(s.Ops, sim.Op{K: "retrieve"})
+		for d := 0; d < 3*k; d++ {
+			idx := int64(0)
+			if r.IntN(3) == 0 {
+				idx = r.Int64N(8)
+			}
+			s.Ops = append(s.Ops, sim.Op{K: "deliver", A: int64(d % 2), B: idx})
+		}
+		if r.IntN(12) == 0 {
+			s.Ops = append(s.Ops, sim.Op{K: "restart"})
+		}
+	}
+	return s
+}
+
 func c02Gen(r *rand.Rand, tier string) *sim.Scn {
-	s := &sim.Scn{Cfg: map[string]int64{}}
+	if r.IntN(4) == 0 {
+		return c02GenNatural(r)
+	}
+	s := &sim.Scn{Cfg: map[string]int64{"final": r.Int64N(3)}}
 	n := 3 + r.IntN(10)
 	if tier == "thorough" && r.IntN(3) == 0 {
 		n = 10 + r.IntN(50)
